@@ -51,6 +51,8 @@ def run(rep):
         for key, items in found.items():
             rep.violation(key, items[0][0] + " (+%d more)" % (len(items) - 1), items[0][1], items[0][2])
         if not found:
+            c01.confirm_jd(rep, results)
+        if not found and not rep.violations:
             c01.confirm(rep, [x for x in results if "JulianDay" not in x["name"]])
             if not rep.violations and not rep.inconclusive:
                 rep.inconclusive.append("solver counterexamples not reproduced natively")
